@@ -26,4 +26,7 @@ def run(ctx):
     ctx.rule("R-WAKEUP-MIN", "the job pass wakes for the earliest pending packet time (upper pacing bound)", floor=8)
     ctx.rule("R-WAKEUP-COVER", "every new packet time set by a job pass reaches that pass's next wake-up (no path skips the recalculation)", floor=6)
     ctx.rule("R-BAM-PACE", "one BAM DT per expiry, spaced by the configured interval", floor=8)
+    from rules import ecu as _E9
+    ctx.rule("R-CONFIG-RANGE", "every packets-per-CTS setting 1..255 is accepted by the constructor", floor=1)
+    _E9.config_range(ctx)
     return "flow-control and pacing clauses of C09 decided on both data link layers"
